@@ -40,6 +40,32 @@ CHECKS = {
             'classes (subtypeSpec additions, namedValues, default*) must carry exactly the written values.',
             'Trusts the reference syntax/default model and the recording builder\'s reading of the generated '
             'Python; DEFVALs are generated only within the constraints in force.', '4/C05'),
+    'C04': ('exploration',
+            'Hypothesis model-based module sets; compile+exec against a recording MIB builder, JSON<->pysnmp '
+            'differential, import/export closure invariant, and loading the whole set in a real pysnmp MibBuilder',
+            'Every generated set is rendered by both backends from the same tree; the Python must compile, execute, '
+            'export every symbol of the model under the module name, agree with the JSON document on OID / kind / '
+            'base type / access, export everything other generated modules import, and load together in pysnmp '
+            'with getName() == model OID.',
+            'Recording builder stands in for pysnmp in facets 1-4; pysnmp 7.1 is trusted for facet 5. Classes of '
+            'open findings D16 D17 D18 D30 D35 D36 are excluded by construction and probed on every run.', '4/C04'),
+    'C06': ('exploration',
+            'Hypothesis model-based tables / lists / compliance statements; reference-model oracle on JSON members '
+            'and on calls captured by the recording builder',
+            'Generated tables with own, foreign, imported and IMPLIED indices, augmenting rows, member lists mixing '
+            'local and imported objects, multi-clause compliance statements; nodetype, indices, augmention, objects '
+            'and modulecompliance (JSON) and setIndexNames / registerAugmentions / setObjects (pysnmp) must list the '
+            'same targets in the same order with the defining module.',
+            'Trusts the reference model of references; attribution = defining generated module.', '4/C06'),
+    'C15': ('exploration',
+            'Hypothesis trouble-weighted string alphabet in every text-bearing clause; exact / normalised / '
+            'whitespace-free equality oracle on JSON members and recorded pysnmp strings',
+            'Texts with backslashes, quotes, Jinja look-alikes, all line-break kinds, long unbroken words and '
+            'non-ASCII characters are placed in every text clause; JSON must reproduce them exactly (identity '
+            'filter) or run-normalised (default), and only when requested; strings obtained by executing the '
+            'pysnmp module must equal the source up to whitespace.',
+            'While finding D18 (unescaped texts in the pysnmp template) is open the pysnmp facet runs on the '
+            'alphabet without backslashes and single-line clauses without line breaks.', '4/C15'),
     'C11': ('exploration',
             'exhaustive prefix enumeration of generated files + Hypothesis token mutants/noise; oracle = exception '
             'type, completeness by the renderer span table, exact line of never-viable tokens; atheris in thorough',
